@@ -60,7 +60,10 @@ RULE_ADDED = (
               ' '
               'Round 17: a uiHeartbeat after which the device is found locked in the bootloader'
               ' and is no device the bring-up would accept; unsafe devices after a reconnection'
-              ' on SGX too. ')
+              ' on SGX too. '
+              ' '
+              'Round 20: a UI whose answer to the retries query carries bytes after the counter'
+              ' (20% of the sampled configurations). ')
 RULE = RULE + " " + RULE_ADDED.strip()
 ASSUMPTIONS = [
     "simulated device + fake transports trusted",
@@ -167,7 +170,10 @@ def configs(spec):
                    "unlock": rng.random() < 0.8,
                    "change": rng.random() < 0.25, "post": rng.choice(POST + ["signer"] * 6),
                    "newpin": rng.choice(["ok", "ok", "refused", "error", "unknown"]),
-                   "unlock_fault": rng.choice([None] * 8 + ["timeout", "late", "read_error"])}
+                   "unlock_fault": rng.choice([None] * 8 + ["timeout", "late", "read_error"]),
+                   # (a UI that says more than asked: bytes after the retries counter, which
+                   # is the byte after the command's echo whatever follows it)
+                   "retries_tail": rng.choice([""] * 8 + ["03", "00", "9000", "0503", "ff"])}
         if spec["tier"] == "quick":
             return
     prod = itertools.product(PLATFORMS, MODES, ONB, VERS_SMALL, VERS_SMALL, RETRIES,
@@ -189,7 +195,8 @@ def configs(spec):
 def make_device(c):
     cfg = dict(platform=c["platform"], ui_version=c["ui"], signer_version=c["signer"],
                retries=c["retries"], echo_ok=c["echo"], unlock_result=c["unlock"],
-               onboarded=(c["onboarded"] is True), pin=b"abcd1234")
+               onboarded=(c["onboarded"] is True), pin=b"abcd1234",
+               retries_tail=bytes.fromhex(c.get("retries_tail", "")))
     if c["onboarded"] == "error":
         cfg["onboard_sw"] = 0x6A99
     if c["mode"] == "error":
